@@ -764,15 +764,19 @@ class Link(SimComponent):
             receiver = self.endpoint_b
         frame_size = frame.size_Mbits
 
+        # Load the frame size on the link before the frame is delivered. The receiver may send further frames over this
+        # link while it is still processing this one (ARP reply, ICMP echo reply, ...), and those must be admitted
+        # against a load that already includes this frame.
+        self.current_load += frame_size
         if receiver.receive_frame(frame):
             # Frame transmitted successfully
-            # Load the frame size on the link
-            self.current_load += frame_size
             _LOGGER.debug(
                 f"Added {frame_size:.3f} Mbits to {self}, current load {self.current_load:.3f} Mbits "
                 f"({self.current_load_percent})"
             )
             return True
+        # The receiver did not take the frame, release the capacity that was reserved for it
+        self.current_load -= frame_size
         return False
 
     def __str__(self) -> str:
